@@ -115,8 +115,7 @@ def check_read(case, ctx):
     if len(case["text"]) % 4 == 0:
         from rv.props._util import repeat_call
 
-        if not repeat_call(ctx, "bench_read", "bench_to_circuit", cg.io.bench_to_circuit, (case["text"], "bt"), {}, (ok, c)):
-            return
+        ok, c = repeat_call(ctx, "bench_read", "bench_to_circuit", cg.io.bench_to_circuit, (case["text"], "bt"), {}, (ok, c))
     if not ok:
         ctx.violation("bench_read_raised", f"bench_to_circuit raised {c!r}\n{getattr(c, '_tb', '')}")
         return
@@ -142,21 +141,32 @@ def check_read(case, ctx):
         ctx.violation("bench_outputs", f"outputs {sorted(net.outputs)} != declared {sorted(ast['outputs'])}")
         return
     # blackboxes
-    want_bbs = {f"{q}_dff" for q, _ in ast["dffs"]}
-    if set(net.bbs) != want_bbs:
-        ctx.violation("bench_dff_registry", f"blackbox instances {sorted(net.bbs)} != one per DFF {sorted(want_bbs)}")
+    # one flip-flop blackbox per DFF line, identified by structure (the one whose output pin drives the Q net);
+    # instance and pin names are the implementation's choice
+    if len(net.bbs) != len(ast["dffs"]):
+        ctx.violation("bench_dff_registry", f"{len(net.bbs)} blackbox instances {sorted(net.bbs)} for {len(ast['dffs'])} DFF lines")
         return
+    dff_of = {}
     for q, d in ast["dffs"]:
-        inst = f"{q}_dff"
+        drv = [p for p in net.preds.get(q, []) if net.types.get(p) == "bb_output"]
+        if len(drv) != 1 or net.preds[q] != drv:
+            ctx.violation("bench_dff_wiring", f"Q net {q!r} is driven by {net.preds.get(q)}, not by exactly one flip-flop output pin")
+            return
+        inst = drv[0].split(".")[0]
+        if inst in dff_of.values() or inst not in net.bbs:
+            ctx.violation("bench_dff_registry", f"flip-flop of {q!r}: instance {inst!r} missing from the registry or shared")
+            return
+        dff_of[q] = inst
         bbname, bi, bo = net.bbs[inst]
-        if bi != frozenset(["D"]) or bo != frozenset(["Q"]):
+        if len(bi) != 1 or len(bo) != 1:
             ctx.violation("bench_dff_type", f"{inst} has pins {sorted(bi)}/{sorted(bo)}")
             return
-        if net.types.get(f"{inst}.D") != "bb_input" or net.types.get(f"{inst}.Q") != "bb_output":
+        dpin, qpin = f"{inst}.{next(iter(bi))}", f"{inst}.{next(iter(bo))}"
+        if net.types.get(dpin) != "bb_input" or net.types.get(qpin) != "bb_output":
             ctx.violation("bench_dff_pins", f"{inst} pins missing or mistyped")
             return
-        if net.preds[f"{inst}.D"] != [d] or net.succs[f"{inst}.Q"] != [q]:
-            ctx.violation("bench_dff_wiring", f"{inst}: D driven by {net.preds[f'{inst}.D']} (text: {d}), Q drives {net.succs[f'{inst}.Q']} (text: {q})")
+        if net.preds[dpin] != [d] or net.succs[qpin] != [q]:
+            ctx.violation("bench_dff_wiring", f"{inst}: data pin driven by {net.preds[dpin]} (text: {d}), output pin drives {net.succs[qpin]} (text: {q})")
             return
     # functions
     qs = [q for q, _ in ast["dffs"]]
@@ -177,7 +187,7 @@ def check_read(case, ctx):
         pending = rest
     fixed = {x: val[x] for x in ast["inputs"]}
     for q in qs:
-        fixed[f"{q}_dff.Q"] = val[q]
+        fixed[net.preds[q][0]] = val[q]
     try:
         cv, _ = sim.functions(net, [], fixed=fixed, k=k)
     except ValueError as e:
@@ -193,8 +203,10 @@ def check_read(case, ctx):
             ctx.violation("bench_net_function", f"net {x!r} = {sim.bit_at(cv[x], j)}, the text denotes {sim.bit_at(v, j)} under {sim.index_valuation(order, j)}")
             return
     for q, d in ast["dffs"]:
-        if cv[f"{q}_dff.D"] != val[d]:
-            ctx.violation("bench_dff_d", f"D pin of {q}_dff does not carry net {d!r}")
+        inst = dff_of[q]
+        dpin = f"{inst}.{next(iter(net.bbs[inst][1]))}"
+        if cv[dpin] != val[d]:
+            ctx.violation("bench_dff_d", f"data pin of {inst} does not carry net {d!r}")
             return
 
 
